@@ -42,19 +42,27 @@ var flags = []string{
 	"ctlremoveid", "ctlremovetag", "ctlremovetarget", "ctlremovetargettag", "ctlresplimit", "ctlrespproc",
 	"skip3", "skipafter", "allow", "allowrequest", "allowphase", "skip3p2", "skipafterp3",
 	"bigbody", "multipart", "jsonbody", "auditrule",
+	"ctlremovetag,rmid902", // ctl:ruleRemoveByTag (the very action the last probe executes) followed by ctl:ruleRemoveById of a rule without that tag
+	"engonpermit", "engonpermitreq", "engonblock", // ctl:ruleEngine=On followed by allow / allow:request / deny (matters on a WAF configured DetectionOnly)
 }
 
 func rule(phase int, id int, flag, actions string) string {
 	return fmt.Sprintf("SecRule REQUEST_HEADERS:X-F \"@contains %s\" \"id:%d,phase:%d,%s\"\n", flag, id, phase, actions)
 }
 
+// variant 2: the WAF is configured DetectionOnly (the engine's own resets then run in that mode), audit engine On.
 // variant 0: SecAuditEngine On; variant 1: RelevantOnly without a status pattern (a record is written only
 // when a fired rule marked the transaction for auditing, so a mark left behind by a predecessor is visible)
 var variant int
 
 func conf(work string) string {
 	var sb strings.Builder
-	sb.WriteString("SecRuleEngine On\nSecRequestBodyAccess On\nSecResponseBodyAccess On\nSecResponseBodyMimeType text/plain application/json\n")
+	if variant == 2 {
+		sb.WriteString("SecRuleEngine DetectionOnly\n")
+	} else {
+		sb.WriteString("SecRuleEngine On\n")
+	}
+	sb.WriteString("SecRequestBodyAccess On\nSecResponseBodyAccess On\nSecResponseBodyMimeType text/plain application/json\n")
 	sb.WriteString("SecRequestBodyLimit 64\nSecRequestBodyInMemoryLimit 8\nSecResponseBodyLimit 64\n")
 	// exactly as many arguments as the probes carry: anything a recycled object still counts pushes them over the limit
 	sb.WriteString("SecArgumentsLimit 2\n")
@@ -88,6 +96,13 @@ func conf(work string) string {
 	sb.WriteString(rule(1, 120, "allowphase", "allow:phase,nolog"))
 	sb.WriteString(rule(1, 121, "allow,", "allow,nolog"))
 	sb.WriteString(rule(1, 122, "auditrule", "pass,nolog,auditlog,msg:'a1'"))
+	sb.WriteString(rule(1, 130, "rmid902", "pass,nolog,ctl:ruleRemoveById=902"))
+	sb.WriteString(rule(1, 123, "engonpermit,", "pass,nolog,ctl:ruleEngine=On"))
+	sb.WriteString(rule(1, 124, "engonpermit,", "allow,nolog"))
+	sb.WriteString(rule(1, 125, "engonpermitreq", "pass,nolog,ctl:ruleEngine=On"))
+	sb.WriteString(rule(1, 126, "engonpermitreq", "allow:request,nolog"))
+	sb.WriteString(rule(1, 127, "engonblock", "pass,nolog,ctl:ruleEngine=On"))
+	sb.WriteString(rule(1, 128, "engonblock", "deny,status:403,log"))
 	sb.WriteString(rule(1, 198, "skip3,", "pass,nolog,skip:3"))
 	sb.WriteString(rule(1, 199, "skipafter,", "pass,nolog,skipAfter:ABSENT_MARKER"))
 	// ---- phase 2
@@ -215,6 +230,8 @@ var probes = []scen.Req{
 	{URI: "/probe?b=2", Headers: [][2]string{scen.Form(), {"X-F", "match,capture,"}}, Body: "a=2&b=3"},
 	{URI: "/probe", Status: 200, RespHeaders: [][2]string{{"Content-Type", "text/plain"}, {"X-R", "1"}}, RespBody: "probe response"},
 	{URI: "/quiet"}, // fires no rule that logs or audits
+	// executes a by-tag exclusion itself: what a predecessor added to "the rules with that tag" must not come along
+	{URI: "/probe?b=7", Headers: [][2]string{scen.Form(), {"X-F", "ctlremovetag"}}, Body: "a=8"},
 }
 
 // runProbe returns the full canonical outcome of probe i on w.
@@ -431,7 +448,7 @@ func references(c *runner.Ctx) ([]string, error) {
 // flagRule maps a flag to the id of the rule it must switch on.
 var flagRule = map[string]int{"match": 101, "deny1": 102, "capture": 103, "setvar": 104, "ctlengineoff": 105, "ctlenginedet": 106, "ctlauditoff": 107, "ctlauditparts": 108,
 	"ctlreqbodyoff": 109, "ctlreqlimit": 110, "ctlforcebody": 111, "ctlprocjson": 112, "ctlprocxml": 113, "ctlrespbodyoff": 114, "ctlremoveid": 115, "ctlremovetag": 116,
-	"ctlremovetarget": 117, "ctlremovetargettag": 118, "allowrequest": 119, "allowphase": 120, "allow": 121, "auditrule": 122, "skip3": 198, "skipafter": 199,
+	"ctlremovetarget": 117, "ctlremovetargettag": 118, "allowrequest": 119, "allowphase": 120, "allow": 121, "auditrule": 122, "ctlremovetag,rmid902": 130, "engonpermit": 123, "engonpermitreq": 125, "engonblock": 127, "skip3": 198, "skipafter": 199,
 	"deny2": 202, "skip3p2": 298, "ctlresplimit": 301, "ctlrespproc": 302, "deny3": 303, "skipafterp3": 399, "deny4": 401}
 
 // selfTest makes sure every flag really switches its rule on (a harness whose
@@ -463,7 +480,7 @@ func selfTest(c *runner.Ctx) {
 }
 
 func run(c *runner.Ctx) {
-	for variant = 0; variant <= 1; variant++ {
+	for variant = 0; variant <= 2; variant++ {
 		runVariant(c)
 	}
 	variant = 0
